@@ -18,32 +18,36 @@ package netpoll
 //
 //@ func (p *Poller) AddRead(pa *PollAttachment, edgeTriggered bool) (err error)
 //@   requires p != nil && pa != nil && owner[pa.FD] != nil
-//@   modifies polled[pa.FD], armed[pa.FD]
+//@   modifies regfail[pa.FD], polled[pa.FD], armed[pa.FD]
 //@   ensures err == nil ==> polled[pa.FD] && !armed[pa.FD] && regok(pa.FD, edgeTriggered)
 //@   ensures err != nil ==> polled[pa.FD] == old(polled[pa.FD]) && armed[pa.FD] == old(armed[pa.FD])
+//@   ensures regfail[pa.FD] <==> (old(regfail[pa.FD]) || err != nil)
 //@   ensures err != errorx.ErrEngineShutdown
 //
 //@ func (p *Poller) AddReadWrite(pa *PollAttachment, edgeTriggered bool) (err error)
 //@   requires p != nil && pa != nil && owner[pa.FD] != nil
-//@   modifies polled[pa.FD], armed[pa.FD]
+//@   modifies regfail[pa.FD], polled[pa.FD], armed[pa.FD]
 //@   ensures err == nil ==> polled[pa.FD] && armed[pa.FD] && regok(pa.FD, edgeTriggered)
 //@   ensures err != nil ==> polled[pa.FD] == old(polled[pa.FD]) && armed[pa.FD] == old(armed[pa.FD])
+//@   ensures regfail[pa.FD] <==> (old(regfail[pa.FD]) || err != nil)
 //@   ensures err != errorx.ErrEngineShutdown
 //
 //@ func (p *Poller) ModRead(pa *PollAttachment, edgeTriggered bool) (err error)
 //@   requires p != nil && pa != nil && owner[pa.FD] != nil && polled[pa.FD]
-//@   modifies armed[pa.FD], polled[pa.FD]
+//@   modifies regfail[pa.FD], armed[pa.FD], polled[pa.FD]
 //@   ensures err == nil ==> !armed[pa.FD] && regok(pa.FD, edgeTriggered)
 //@   ensures err != nil ==> armed[pa.FD] == old(armed[pa.FD])
 //@   ensures polled[pa.FD]
+//@   ensures regfail[pa.FD] <==> (old(regfail[pa.FD]) || err != nil)
 //@   ensures err != errorx.ErrEngineShutdown
 //
 //@ func (p *Poller) ModReadWrite(pa *PollAttachment, edgeTriggered bool) (err error)
 //@   requires p != nil && pa != nil && owner[pa.FD] != nil && polled[pa.FD]
-//@   modifies armed[pa.FD], polled[pa.FD]
+//@   modifies regfail[pa.FD], armed[pa.FD], polled[pa.FD]
 //@   ensures err == nil ==> armed[pa.FD] && regok(pa.FD, edgeTriggered)
 //@   ensures err != nil ==> armed[pa.FD] == old(armed[pa.FD])
 //@   ensures polled[pa.FD]
+//@   ensures regfail[pa.FD] <==> (old(regfail[pa.FD]) || err != nil)
 //@   ensures err != errorx.ErrEngineShutdown
 //
 //@ func (p *Poller) Delete(fd int) (err error)
